@@ -234,6 +234,44 @@ theorem setup_action_safe (m : Machine) (name : Nat) (args : List Value) (s : Ru
 theorem setup_command_safe (m : Machine) (lt : LabelType) (tn : Nat) (tf : Fields) (s : RunState) (hs : WFs s) :
     (setupCommand m lt tn tf s).safe T := safe_setupCommand m lt tn tf s hs
 
+/-! ## cyclic struct definitions and `Deserialize` -/
+
+theorem findDef_eraseDef_self {α} (n : Nat) : (l : List (Nat × α)) → findDef n (eraseDef n l) = none
+  | [] => by simp [eraseDef, findDef]
+  | (x, d) :: r => by
+    unfold eraseDef
+    by_cases hx : x = n
+    · simp only [hx, if_true]; exact findDef_eraseDef_self n r
+    · simp only [hx, if_false, findDef]; exact findDef_eraseDef_self n r
+
+/-- The deserializer's walk is a total function (it is defined by well-founded recursion, so it
+terminates for EVERY set of definitions, cyclic or not, and every input), and a definition that
+directly contains itself is an error — for every payload — instead of unbounded recursion. -/
+theorem deser_direct_cycle_is_error (defs : List (Nat × List (Nat × Ty))) (n f : Nat) (rest : List (Nat × Ty))
+    (o : List Bool) (h : findDef n defs = some ((f, .struct n) :: rest)) :
+    deserWalk defs (.ty (.struct n)) o = .err := by
+  unfold deserWalk
+  split
+  · rfl
+  · next items hi =>
+    rw [h] at hi; cases hi
+    unfold deserWalk
+    have : deserWalk (eraseDef n defs) (.ty (.struct n)) o = .err := by
+      unfold deserWalk
+      split
+      · rfl
+      · next items' hi' => rw [findDef_eraseDef_self] at hi'; cases hi'
+    rw [this]
+
+/-- a cycle through `optional`: an error exactly when the payload's tag asks for the inner value -/
+example : deserWalk [(0, [(8, .optional (.struct 0))])] (.ty (.struct 0)) [true, true] = .err ∧
+    deserWalk [(0, [(8, .optional (.struct 0))])] (.ty (.struct 0)) [false] = .ok [] := by
+  constructor <;> simp [deserWalk, findDef, eraseDef]
+
+/-- mutual recursion `S → T → S` -/
+example : deserWalk [(0, [(8, .struct 1)]), (1, [(9, .int), (8, .struct 0)])] (.ty (.struct 0)) [true, true] = .err := by
+  simp [deserWalk, findDef, eraseDef]
+
 /-! ## the defects, as statements about the instruction semantics with the pre-fix flags -/
 
 /-- F2: with `todo!()` in the `Next`/`Last` arms the one-instruction program `[Next]` panics. -/
